@@ -77,6 +77,14 @@ func c08Chain(seed int64, steps int) [][]string {
 				}
 			}
 		}
+		// now and then a large change set, so that the diff is far bigger than any I/O buffer
+		if rng.Intn(3) == 0 {
+			nbig := 150 + rng.Intn(300)
+			for i := 0; i < nbig; i++ {
+				fresh++
+				next = append(next, fmt.Sprintf("+bulk%05d.example.com,192.0.%d.%d,%d", fresh, (fresh>>8)%250, fresh%250, 100+fresh%5000))
+			}
+		}
 		// subnets moving: fresh unique subnets so that range points churn
 		for i := 0; i < rng.Intn(4); i++ {
 			fresh++
